@@ -53,19 +53,51 @@ Definition pd_last (n : nat) (st : list Z * list bool) : res (list bool) :=
     end
   end.
 
-(* The result is the pair of arguments (n, edges) handed to NewDense.  len(edges) is
-   (n*(n-1))/2 by construction, so NewDense's "Wrong number of edges" panic cannot fire;
-   NewDense itself (degrees and m from the bits) belongs to the graph area (C05/C06).
-   The elements of p are Go ints: the first loop executes degrees[v]++ for every element
+(* ------------------------------------------------------------------ NewDense(n, edges), edges != nil
+   (graph/graph_dense.go; PruferDecode always passes a slice made by make, which is not nil) *)
+Fixpoint fold_res {A B} (f : A -> B -> res A) (l : list B) (a : A) : res A :=
+  match l with
+  | [] => Ok a
+  | b :: r => do a' <- f a b; fold_res f r a'
+  end.
+
+(* the pairs (i, j) in the order of  for j := 0; j < n; j++ { for i := 0; i < j; i++ {..} } *)
+Definition all_cells (n : nat) : list (nat * nat) :=
+  flat_map (fun j => map (fun i => (i, j)) (seq 0 j)) (seq 0 n).
+
+(* if edges[index] > 0 { degrees[i]++; degrees[j]++; m++ }; index++ *)
+Definition nd_cell (edges : list bool) (st : nat * Z * list Z) (ij : nat * nat) : res (nat * Z * list Z) :=
+  let '(index, m, deg) := st in
+  let (i, j) := ij in
+  do b <- get edges index;
+  if b : bool then
+    do d1 <- add_at deg i 1;
+    do d2 <- add_at d1 j 1;
+    Ok (S index, (m + 1)%Z, d2)
+  else Ok (S index, m, deg).
+
+Definition new_dense (n : nat) (edges : list bool) : res dgraph :=
+  if negb (length edges =? tri n) then Panic                 (* panic("Wrong number of edges") *)
+  else
+    do st <- fold_res (nd_cell edges) (all_cells n) (0, 0%Z, repeat 0%Z n);
+    let '(_, m, deg) := st in
+    Ok {| dn := n; dm := m; ddeg := deg; dedges := edges |}.
+
+(* The elements of p are Go ints: the first loop executes degrees[v]++ for every element
    before anything else happens, so a negative element panics whatever the rest is; the model
-   therefore converts the whole code to [nat] first. *)
-Definition prufer_decode (p : list Z) : res (nat * list bool) :=
+   therefore converts the whole code to [nat] first.  [prufer_decode_args] is the pair of
+   arguments handed to NewDense. *)
+Definition prufer_decode_args (p : list Z) : res (nat * list bool) :=
   do pn <- map_res idx p;
   let n := length pn + 2 in
   do deg <- incr_all (repeat 1%Z n) pn;
   do st <- pd_loop n pn (deg, repeat false (tri n));
   do edges <- pd_last n st;
   Ok (n, edges).
+
+Definition prufer_decode (p : list Z) : res dgraph :=
+  do ne <- prufer_decode_args p;
+  new_dense (fst ne) (snd ne).
 
 (* ------------------------------------------------------------------ PruferEncode *)
 
